@@ -139,7 +139,7 @@ func RunOnce(t *testing.T, env *Env, p *Prop, seed, run uint64, vals []uint32, r
 			if r := recover(); r != nil {
 				msg := fmt.Sprint(r)
 				if strings.Contains(msg, "deadlock") || strings.Contains(msg, "blocked goroutines remain") {
-					res.Leak = msg
+					res.Leak = msg + leakSummary()
 					return
 				}
 				res.Harness = msg + "\n" + sim.TrimStack(debug.Stack())
@@ -205,6 +205,48 @@ func RunOnce(t *testing.T, env *Env, p *Prop, seed, run uint64, vals []uint32, r
 		res.Exhausted = s.Exhausted
 	}
 	return res
+}
+
+// leakSummary names where the goroutines that are still blocked inside a
+// finished bubble are sitting (first frame of the code under test or net/http).
+func leakSummary() string {
+	buf := make([]byte, 1<<20)
+	n := runtime.Stack(buf, true)
+	seen := map[string]int{}
+	for _, b := range strings.Split(string(buf[:n]), "\n\n") {
+		if !strings.Contains(b, "synctest bubble") {
+			continue
+		}
+		where := "?"
+		for _, l := range strings.Split(b, "\n") {
+			if strings.HasPrefix(l, "gitlab.com/yawning/obfs4.git/") && !strings.Contains(l, "zz_verif") || strings.HasPrefix(l, "net/http.") || strings.HasPrefix(l, "main.") {
+				if i := strings.LastIndexByte(l, '('); i > 0 {
+					l = l[:i]
+				}
+				where = strings.TrimPrefix(l, "gitlab.com/yawning/obfs4.git/")
+				break
+			}
+		}
+		if where == "?" {
+			// no frame of the code under test: name the harness function instead
+			for _, l := range strings.Split(b, "\n") {
+				if strings.Contains(l, "zz_verif") && !strings.HasPrefix(l, "\t") {
+					if i := strings.LastIndexByte(l, '('); i > 0 {
+						l = l[:i]
+					}
+					where = "harness:" + l[strings.LastIndexByte(l, '/')+1:]
+					break
+				}
+			}
+		}
+		seen[where]++
+	}
+	var parts []string
+	for k, v := range seen {
+		parts = append(parts, fmt.Sprintf("%s x%d", k, v))
+	}
+	sort.Strings(parts)
+	return " [blocked: " + strings.Join(parts, ", ") + "]"
 }
 
 // ---- shrinking ------------------------------------------------------------------
